@@ -251,7 +251,7 @@ func c06Trees(maxOps int, lits []int64, name string) *core.Scenario {
 // positions: a reduced expression set in every other operand position that admits an expression.
 func c06Positions(lits []int64) *core.Scenario {
 	positions := []string{"EQU_reuse", "DB", "DW", "MOV AX", "MOV EAX", "MOV CL", "[BX+e]", "[EBX+e]", "[e+BX]", "[BX+e-1]", "[BX+SI+e]", "[EBX+ESI+e]", "[EBX+ESI*2+e]", "[BX+e+SI]", "RESB", "EQU", "EQU_chain", "EQU_dollar", "ORG", "ADD CX", "PUSH",
-		"IMUL CX", "IMUL ECX", "CMP AL", "SUB EAX", "AND BX", "OR BYTE [BX]", "MOV WORD [SI]", "XOR DWORD [EBX]", "EQU_case_twins"}
+		"IMUL CX", "IMUL ECX", "CMP AL", "SUB EAX", "AND BX", "OR BYTE [BX]", "MOV WORD [SI]", "XOR DWORD [EBX]", "EQU_case_twins", "EQU_dollar_relaxed"}
 	return &core.Scenario{
 		Name: "positions", Bound: -1,
 		Rule:   "all expressions with <= 1 operator (and a 2-operator sample) over the literal set, placed in every operand position that admits an expression (data, immediates, displacements before/after/around a register term, RESB, EQU bodies, ORG); the encoded value must be the reference value modulo the field width; non-trivial = expression with an operator",
@@ -329,6 +329,8 @@ func c06Positions(lits []int64) *core.Scenario {
 				src = "\tORG 0x7c00\n\tDB 1,2,3\n" + sentinelLine(2) + "X EQU $+" + ep + "\n\tDB 4\n" + sentinelLine(0) + "\tDD X\n" + sentinelLine(1)
 			case "EQU_reuse": // the name is used as first factor of a product/quotient/remainder and then again
 				src = "X EQU " + e + "\nK EQU 3\n\tDD X*K\n\tDD X/K\n\tDD X%K\n\tDD K*X\n" + sentinelLine(0) + "\tDD X\n" + sentinelLine(1) + "\tDD K\n"
+			case "EQU_dollar_relaxed": // as EQU_dollar, behind a JMP that has to grow (pass 1 runs twice; $ moves between the runs)
+				src = "\tORG 0x7c00\n\tJMP over\n\tRESB 200\nover:\n" + sentinelLine(2) + "X EQU $+" + ep + "\n\tDB 4\n" + sentinelLine(0) + "\tDD X\n" + sentinelLine(1)
 			case "EQU_case_twins": // names that differ only in case are different names
 				src = "val EQU " + e + "\nVAL EQU 77\nVal EQU 78\n\tDD VAL,Val\n" + sentinelLine(0) + "\tDD val\n" + sentinelLine(1)
 			case "ORG":
@@ -382,6 +384,13 @@ func c06Positions(lits []int64) *core.Scenario {
 						}
 						got = rdle(reg)
 					case "EQU", "ORG", "EQU_reuse", "EQU_case_twins":
+						if len(reg) != 4 {
+							fail("length", "expected 4 bytes")
+							return v
+						}
+						got = rdle(reg)
+					case "EQU_dollar_relaxed":
+						want = want + 0x7c00 + 3 + 200 + 8
 						if len(reg) != 4 {
 							fail("length", "expected 4 bytes")
 							return v
